@@ -1,5 +1,5 @@
 """C02 - SSC simfile: serialize then parse gives back the same simfile (structural clauses)."""
-from ..rules import readers, serial
+from ..rules import readers, serial, writers
 from ..rules.ident import ident_rule
 
 EXPLANATION = (
@@ -16,14 +16,13 @@ ASSUMPTIONS = [
 
 def c1(ctx):
     ident_rule(ctx, ["simfile.ssc"] if ctx.tier == "quick" else [m.name for m in ctx.p.nontest_modules()], floor=4 if ctx.tier == "quick" else 12)
-    serial.ssc_notes_item(ctx)
+    writers.ssc_chart_items(ctx)
     readers.ssc_chart_table(ctx, raw_key_ok=True)
 
 
 def c3(ctx):
     serial.table_spec(ctx, 'ssc')
-    serial.writer_item_loop(ctx, serial.SSCCHART_SERIALIZE, notes_exempt=True)
-    serial.writer_item_loop(ctx, serial.BASE_SERIALIZE, notes_exempt=False)
+    writers.base_items(ctx)
 
 
 def c4(ctx):
